@@ -86,7 +86,16 @@ def oracle(case, reply):
     h = line.split(" ")[1]
     code = bytes.fromhex(h) if h != "-" else b""
     rr = random.Random(hash(line) & 0xffffffff)
-    return G.local_executions(code, reply, rr) or G.whole_execution(code, reply, rr)
+    why = G.local_executions(code, reply, rr) or G.whole_execution(code, reply, rr)
+    if why is None and R.uses_cancun_extra(code):
+        # the same executions under the REAL Cancun EVM (finding D27): only reported when etk's own opcode set explains
+        # everything else, so that a different violation is never hidden behind it
+        with R.real_cancun():
+            rr = random.Random(hash(line) & 0xffffffff)
+            why2 = G.local_executions(code, reply, rr) or G.whole_execution(code, reply, rr)
+        if why2:
+            return R.D27 + why2
+    return why
 
 
 def nontrivial(case, reply):
@@ -102,12 +111,16 @@ MANIFEST = {
             "edge of the graph as built and, for any solver that is sound for unsat, of the refined graph; lifted to whole "
             "execution paths by induction. Rests on T-ann (C06) and T-tr: for each of the 60 symbols and all 2^256 values per "
             "operand the emitted SMT term denotes the EVM operation (wrap-around, signedness, shifts >= 256, byte index >= 32, "
-            "257/512-bit addmod/mulmod).",
+            "257/512-bit addmod/mulmod). SCOPE: the reference semantics follows the opcode set of etk's own Cancun table; for the REAL Cancun "
+            "EVM the same theorems hold for blocks without BLOBHASH / BLOBBASEFEE / TLOAD / TSTORE (C05_initial_cancun, C05_refined_cancun, via "
+            "execBlockC_eq) and FAIL otherwise: C05_cancun_counterexample exhibits 60005c6006565b00, whose real control transfer is in "
+            "neither graph (known finding D27: etk's cancun.toml lacks the four opcodes).",
     "note": "Trusted: Lean kernel; Smt/Translate.lean tied to Z3Visit::exit by exact equality of SMT-LIB text (hook) for every "
             "opcode with symbolic operands; Smt/Term.lean = my transcription of SMT-LIB semantics (cross-checked on ground terms "
             "with z3); Cfg/Model.lean tied by equality of the initial DOT graph and by checking every removed edge's query; "
             "SoundSat and the 0^0 admissibility are assumptions about Z3; EVM semantics restricted to pc/stack (partial by "
             "nature: gas, memory, storage, call frames are an oracle). Setup hypothesis (accepted blocks, distinct offsets, "
-            "code below 2^16) is stated explicitly.",
+            "code below 2^16) is stated explicitly; the hypothesis popBudget <= 65535 of the pipeline theorems is sufficient, not exact, for the "
+            "annotator's u16 variable counter.",
     "technique": "Lean 4 proof: simulation + per-operator bit-vector lemmas + graph invariants; structural SMT-LIB text tie; z3 cross-check; reference interpreter search",
 }
